@@ -92,6 +92,45 @@ def run(ctx, rep):
     for ob in orig_blocks:
         rep.ob("lookup-order", "not-after-override", not any(cfg.dominates(bi, ob) for bi, _t in overrides), "no override_name call dominates the lookup of S", b.file, b.blocks[ob]["t"]["l"])
 
+    # every --wrap name is handled independently: nothing inside the loop body may leave the function (a `return` where `continue`
+    # is meant makes all later --wrap options silently ineffective after a name that has no definition / no wrapper)
+    rep.rule("each-name", "inside the loop over the --wrap names no path returns from the function: the only exit is the iterator's end")
+    nexts = []
+    for bi, t in flow.calls():
+        ck = callee_key(t["f"]) or ""
+        nxt = t.get("to")
+        if ck.endswith("as std::iter::Iterator>::next") and nxt is not None and bi in cfg.reachable_from(nxt):
+            nexts.append(bi)
+    rep.ob("each-name", "loop", len(nexts) >= 1, f"{len(nexts)} iterator loop(s) in apply_wrapped_symbol_overrides", b.file, b.line)
+    for n_ in nexts:
+        # blocks of the loop body: reachable from the call's successor on the Some edge and able to reach `next` again
+        from mir import enum_switch
+        some_targets = set()
+        for sb in cfg.reachable_from(b.blocks[n_]["t"]["to"]):
+            es = enum_switch(F, b, flow, cfg, sb)
+            if es and es[0].endswith("Option") and cfg.dominates(n_, sb):
+                for lab, names in es[1].items():
+                    if names == frozenset({"Some"}):
+                        some_targets |= {t2 for l2, t2 in cfg.succ[sb] if l2 == lab}
+                break
+        body_blocks = set()
+        for st_ in some_targets:
+            body_blocks |= {x for x in cfg.reachable_from(st_, avoid={n_}) | {st_}}
+        body_blocks = {x for x in body_blocks if n_ in cfg.reachable_from(x)} - {n_}
+        leaks = []
+        for x in sorted(body_blocks):
+            if any(bx == x for bx, _t in overrides) or any(x == k for k in lookups):
+                after = cfg.reachable_from(x, avoid={n_})
+                leaks += [y for y in after if b.blocks[y]["t"]["k"] == "return"]
+        # general form: from any block that is part of the body, a return reachable without passing `next`
+        general = set()
+        for x in body_blocks:
+            for y in cfg.reachable_from(x, avoid={n_}):
+                if b.blocks[y]["t"]["k"] == "return":
+                    general.add(y)
+        rep.ob("each-name", "no-return-in-body", not general, ("no return statement is reachable from the loop body without going back to the iterator" if not general else
+               f"a return is reachable from inside the loop body (block(s) {sorted(general)}): after a name that takes this path every later --wrap option is ignored"), b.file, b.blocks[n_]["t"]["l"])
+
     ov = F.body(S + "override_name")
     if ov is None:
         rep.lost("override-scope", S + "override_name")
